@@ -11,11 +11,13 @@ racef=""; grep -qiE -- '-race' "$src/NOTES.md" 2>/dev/null && racef="-race"
 ( cd "$S" && go test -vet=off -count=1 $racef -run 'TestSeedDemo' . > "$S/demo0.log" 2>&1 ) && echo "demo-without-change: PASS" || { echo "demo-without-change: FAIL (bad seed)"; tail -5 "$S/demo0.log"; }
 ( cd "$S" && git init -q && git apply "$src/patch.diff" ) || { echo "PATCH-FAILED"; exit 3; }
 ok=0
+[ -n "${SKIP_CONFIRM:-}" ] && ok=2
 for try in 1 2 3; do
+  [ $ok = 2 ] && break
   if ( cd "$S" && go test -vet=off -count=1 -skip 'TestSeedDemo' . > "$S/test.log" 2>&1 ); then ok=1; break; fi
   grep -- '--- FAIL' "$S/test.log" | sort > "$S/fail.$try"
 done
-if [ $ok = 1 ]; then echo "repo-tests-with-change: PASS"; else
+if [ $ok = 2 ]; then echo "repo-tests-with-change: (not re-run)"; elif [ $ok = 1 ]; then echo "repo-tests-with-change: PASS"; else
   common=$(comm -12 "$S/fail.1" "$S/fail.2" | comm -12 - "$S/fail.3")
   if [ -z "$common" ]; then echo "repo-tests-with-change: PASS (only flaky TLS/proxy failures, different each run)";
   elif ! echo "$common" | grep -vqE 'Proxy|TLS' && ! grep -qE '^\+\+\+ b/(client|proxy|tls_handshake|url)' "$src/patch.diff" && \
